@@ -1,7 +1,7 @@
 (* ContStrDefs.v — executable model of xalanc::XalanDOMString (XalanDOM/XalanDOMString.{hpp,cpp}) as it
    is: a XalanVector<XalanDOMChar> kept NUL-terminated (or completely empty) plus a separately tracked
-   m_size, every mutator expressed through the XalanVector model's operations, quirks included
-   (resize() leaves the old terminator when the buffer already holds one).  Specification:
+   m_size, every mutator expressed through the XalanVector model's operations, as repaired (resize()
+   overwrites the old terminator before growing; append / substr with npos; erase on an empty buffer).  Specification:
    std::u16string as a list of code units.  Definitions only. *)
 From Coq Require Import List Arith Bool.
 Require Import XV.GenCont XV.ContVecDefs.
@@ -47,8 +47,12 @@ Definition erase_it (s : xstr) (a b : nat) : xstr :=
   let d1 := erase_range (sdata s) a b in mkstr d1 (vsize d1 - 1).
 Definition erase_it1 (s : xstr) (p : nat) : xstr := mkstr (erase_range (sdata s) p (S p)) (ssize s - 1).
 
+(* m_data.back() = theChar when the buffer is not empty (the old terminator becomes an ordinary position) *)
+Definition set_back (c : nat) (v : vec) : vec :=
+  if vsize v =? 0 then v else mkvec (set_nth (vsize v - 1) c (vdata v)) (vcap v).
+
 Definition sresize (s : xstr) (n c : nat) : xstr :=
-  if n =? ssize s then s else mkstr (set_back0 (resize (sdata s) (n + 1) c)) n.
+  if n =? ssize s then s else mkstr (set_back0 (resize (set_back c (sdata s)) (n + 1) c)) n.
 
 Definition sreserve (s : xstr) (n : nat) : xstr := mkstr (reserve (sdata s) (n + 1)) (ssize s).
 
@@ -100,7 +104,8 @@ Inductive sop :=
 | SInsIt (p c : nat) | SErase (p n : nat) | SEraseNpos (p : nat) | SEraseIt (a b : nat) | SEraseIt1 (p : nat)
 | SResize (n c : nat) | SResize0 (n : nat) | SReserve (n : nat) | SClear | SAssignW (w : list nat) | SAssignN (n c : nat)
 | SSubstr (p n : nat) | SSelfSub (p n : nat) | SAppSub (p n : nat) | SAppO | SCmp | SCmpW (w : list nat)
-| SIdx (i : nat) | SCStr | SRIter | SCopy | SAssign | SSelfAssign | SSwap | SSel (r : bool).
+| SIdx (i : nat) | SCStr | SRIter | SCopy | SAssign | SSelfAssign | SSwap | SSel (r : bool)
+| SAppSubNpos (p : nat) | SSubstrNpos (p : nat).
 
 Inductive sret := SRNone | SRNum (n : nat) | SRList (l : list nat).
 
@@ -113,9 +118,7 @@ Definition set_oth_st (s : ststate) (x : xstr) := if stcur s then mkst x (sreg1 
 
 Definition nonzero (l : list nat) : bool := forallb (fun c => negb (c =? 0)) l.
 
-(* None = outside the C++ precondition, a NUL code unit as an argument, or a known-finding class
-   (resize growing a string whose buffer holds a terminator; erase(iterator, iterator) on an empty
-   buffer): the driver skips the op *)
+(* None = outside the C++ precondition or a NUL code unit as an argument: the driver skips the op *)
 Definition ststep (s : ststate) (o : sop) : option (ststate * sret) :=
   let x := cur_str s in
   let n := ssize x in
@@ -130,11 +133,10 @@ Definition ststep (s : ststate) (o : sop) : option (ststate * sret) :=
                   then let '(x', r) := insert_it x p c in Some (set_cur_st s x', SRNum r) else None
   | SErase p k => if p + k <=? n then Some (set_cur_st s (erase_cnt x p k), SRNone) else None
   | SEraseNpos p => if p <=? n then Some (set_cur_st s (erase_npos x p), SRNone) else None
-  | SEraseIt a b => if ((a <=? b) && (b <=? n) && negb (buf_empty x))%bool
+  | SEraseIt a b => if ((a <=? b) && (b <=? n))%bool
                     then Some (set_cur_st s (erase_it x a b), SRNum a) else None
   | SEraseIt1 p => if p <? n then Some (set_cur_st s (erase_it1 x p), SRNum p) else None
-  | SResize k c => if ((c =? 0) || ((n <? k) && negb (buf_empty x)))%bool then None
-                   else Some (set_cur_st s (sresize x k c), SRNone)
+  | SResize k c => if c =? 0 then None else Some (set_cur_st s (sresize x k c), SRNone)
   | SResize0 k => if n <? k then None else Some (set_cur_st s (sresize x k 0), SRNone)
   | SReserve k => Some (set_cur_st s (sreserve x k), SRNone)
   | SClear => Some (set_cur_st s (erase_all x), SRNone)
@@ -156,6 +158,11 @@ Definition ststep (s : ststate) (o : sop) : option (ststate * sret) :=
   | SSelfAssign => Some (s, SRNone)
   | SSwap => Some (mkst (sreg1 s) (sreg0 s) (stcur s), SRNone)
   | SSel r => Some (mkst (sreg0 s) (sreg1 s) r, SRNone)
+  (* append(other, p, npos): append(c_str() + p, npos), the length is found by scanning for the NUL *)
+  | SAppSubNpos p => if p <? ssize y
+                     then Some (set_cur_st s (append_w x (strlen_prefix (skipn p (vdata (sdata y))))), SRNone) else None
+  (* substr(result, p) with the default count: assign(this string, p, length() - p) into a fresh string *)
+  | SSubstrNpos p => if p <? n then Some (s, SRList (chars (assign_sub sempty (chars x) p (n - p)))) else None
   end.
 
 (* observation: return value, length(), the code units [0, length()), c_str()[length()] == 0, capacity() *)
@@ -187,7 +194,6 @@ Definition oth_u (s : ustate) := if ucur s then u0 s else u1 s.
 Definition set_cur_u (s : ustate) (l : list nat) := if ucur s then mkus (u0 s) l true else mkus l (u1 s) false.
 Definition set_oth_u (s : ustate) (l : list nat) := if ucur s then mkus l (u1 s) true else mkus (u0 s) l false.
 
-(* total on the C++ preconditions; the known-finding guards of [ststep] are not part of the specification *)
 Definition ustep (s : ustate) (o : sop) : option (ustate * sret) :=
   let l := cur_u s in
   let n := length l in
@@ -223,10 +229,11 @@ Definition ustep (s : ustate) (o : sop) : option (ustate * sret) :=
   | SSelfAssign => Some (s, SRNone)
   | SSwap => Some (mkus (u1 s) (u0 s) (ucur s), SRNone)
   | SSel r => Some (mkus (u0 s) (u1 s) r, SRNone)
+  | SAppSubNpos p => if p <? length y then Some (set_cur_u s (l ++ skipn p y), SRNone) else None
+  | SSubstrNpos p => if p <? n then Some (s, SRList (skipn p l)) else None
   end.
 
-(* lock-step refinement: whenever the model performs an op (inside the preconditions and outside the
-   known-finding guards) the specification performs it with the same return value, and the code units
+(* lock-step refinement: whenever the model performs an op (inside the preconditions) the specification performs it with the same return value, and the code units
    of the current string agree afterwards *)
 Fixpoint st_refines (s : ststate) (u : ustate) (ops : list sop) : Prop :=
   match ops with
